@@ -190,7 +190,7 @@ with PostgresImpl.impl_store.impl_manager as impl:
 
     @impl(ops.dur_days)
     def _dur_days(x):
-        sqa.func.extract("DAYS", x)
+        return sqa.func.extract("DAYS", x)
 
     @impl(ops.list_agg)
     def _list_agg(x):
